@@ -61,15 +61,18 @@ static void *sweep_thread(void *arg)
 				snprintf(j->fail, sizeof j->fail, "rand31 %llu got=%u/%u want=%u", (unsigned long long)v, r, s, want);
 		} else if (!strcmp(w, "rotenc")) {
 			/* v = ls(2) | next(2) | count(8) | ic(16) */
-			unsigned ls = v & 3, nx = (v >> 2) & 3, cnt = (v >> 4) & 0xff, ic = (v >> 12) & 0xffff;
+			unsigned ls = v & 3, nx = (v >> 2) & 3, ic = (v >> 12) & 0xffff;
 			rotenc_t r; memset(&r, 0, sizeof r);
+			r.count = ~0; unsigned cmask = r.count;          /* whatever width the latch has */
+			unsigned cnt = ((((v >> 4) & 0xff) * 0x0101u) ^ ((ic * 7u) & 0xff00u)) & cmask;
 			r.last_state = ls; r.count = cnt; r.internal_count = ic;
 			rotenc_decode(&r, nx);
 			unsigned wic = (ic + ref_delta(ls, nx)) & 0xffff;
-			unsigned wcnt = nx == 0 ? ((wic >> 2) & 0xff) : cnt;
-			if (r.internal_count != wic || (r.count & 0xff) != wcnt || r.last_state != nx || rotenc_count(&r) != wcnt)
+			unsigned wcnt = nx == 0 ? ((wic >> 2) & cmask) : cnt;
+			if (r.internal_count != wic || r.count != wcnt || r.last_state != nx || rotenc_count(&r) != (wcnt & 0xff)
+			    || (cmask >= 0x3fff && rotenc_count14(&r) != (wcnt & 0x3fff)))
 				snprintf(j->fail, sizeof j->fail, "rotenc %u %u %u %u got=%u/%u/%u want=%u/%u/%u", ls, cnt, ic, nx,
-					 r.last_state, r.count & 0xff, r.internal_count, nx, wcnt, wic);
+					 r.last_state, (unsigned)r.count, r.internal_count, nx, wcnt, wic);
 		}
 	}
 	return NULL;
@@ -114,8 +117,81 @@ static int sweep_macros(uint64_t seed, uint64_t nrand)
 	return 0;
 }
 
+/* C19 random walks against the true (unbounded) position.  Walks head for the 8-, 14- and 16-bit wrap
+ * points of the click / quarter-step counters in both directions and dither across them, with contact
+ * bounce, repeated states and invalid two-bit jumps mixed in.  Prints the shortest failing prefix. */
+static int64_t fdiv4(int64_t p) { return p >= 0 ? p / 4 : -((-p + 3) / 4); }
+static int walk(uint64_t seed, long nwalks, long steps)
+{
+	static const uint8_t cw[4] = { 1, 3, 0, 2 }, ccw[4] = { 2, 0, 3, 1 }; /* next state by current state */
+	static const int64_t targets[] = { 0, 1024, -1024, 2048, 65536, -65536, 32768, -32768, 131072, 4096, -4096, 512, -512 };
+	uint64_t st = seed * 0x9E3779B97F4A7C15ull + 7;
+	long total = 0;
+	for (long w = 0; w < nwalks; w++) {
+		rotenc_t r = ROTENC_VAR_INIT;
+		int64_t P = 0, L = 0;
+		uint8_t cur = 0;
+		int64_t tgt = targets[xs64(&st) % (sizeof targets / sizeof *targets)] + (int64_t)(xs64(&st) % 9) - 4;
+		static uint8_t hist[1 << 20];
+		for (long i = 0; i < steps && i < (1 << 20); i++) {
+			unsigned k = xs64(&st) % 100;
+			uint8_t nx;
+			if (P == tgt || k < 3) { /* arrived (or bored): dither a little, then choose a new target */
+				if (xs64(&st) % 6 == 0)
+					tgt = targets[xs64(&st) % (sizeof targets / sizeof *targets)] + (int64_t)(xs64(&st) % 9) - 4;
+				nx = (xs64(&st) & 1) ? cw[cur] : ccw[cur];
+			} else if (k < 8) nx = cur;                 /* repeated state */
+			else if (k < 12) nx = cur ^ 3;              /* invalid two-bit jump */
+			else if (k < 24) nx = (P < tgt) ? ccw[cur] : cw[cur]; /* bounce back */
+			else nx = (P < tgt) ? cw[cur] : ccw[cur];  /* head for the target */
+			hist[i] = nx;
+			P += ref_delta(cur, nx);
+			cur = nx;
+			if (nx == 0) L = P;
+			rotenc_decode(&r, nx);
+			total++;
+			unsigned c8 = rotenc_count(&r), c14 = rotenc_count14(&r);
+			const char *bad = NULL;
+			if (r.internal_count != (uint16_t)P) bad = "position";
+			else if (c8 != (uint8_t)fdiv4(L)) bad = "count";
+			else if (c14 != (uint16_t)(fdiv4(L) & 0x3fff)) bad = "count14";
+			else if ((c14 & 0xff) != c8) bad = "low8";
+			if (bad) {
+				printf("FAIL walk %s seed=%llu walk=%ld step=%ld P=%lld latched=%lld count=%u count14=%u internal=%u want_count=%u want_count14=%u states=",
+				       bad, (unsigned long long)seed, w, i, (long long)P, (long long)L, c8, c14, r.internal_count,
+				       (unsigned)(uint8_t)fdiv4(L), (unsigned)(fdiv4(L) & 0x3fff));
+				/* compress the history as run-length of quarter steps for readability */
+				for (long j = 0; j <= i; j++) putchar('0' + hist[j]);
+				putchar('\n');
+				return 0;
+			}
+		}
+	}
+	printf("OK %ld\n", total);
+	return 0;
+}
+
+/* replay an explicit state string ("013201...") and print the readings after every step */
+static int walk_replay(const char *states)
+{
+	rotenc_t r = ROTENC_VAR_INIT; int64_t P = 0, L = 0; uint8_t cur = 0; int bad = 0;
+	for (const char *p = states; *p; p++) {
+		uint8_t nx = (*p - '0') & 3;
+		P += ref_delta(cur, nx); cur = nx; if (!nx) L = P;
+		rotenc_decode(&r, nx);
+		if (r.internal_count != (uint16_t)P || rotenc_count(&r) != (uint8_t)fdiv4(L) || rotenc_count14(&r) != (uint16_t)(fdiv4(L) & 0x3fff)) bad = 1;
+	}
+	printf("%s P=%lld latched=%lld count=%u count14=%u want_count14=%u\n", bad ? "FAIL" : "OK", (long long)P, (long long)L,
+	       rotenc_count(&r), rotenc_count14(&r), (unsigned)(fdiv4(L) & 0x3fff));
+	return 0;
+}
+
 int main(int argc, char **argv)
 {
+	if (argc >= 5 && !strcmp(argv[1], "walk"))
+		return walk(strtoull(argv[2], 0, 10), atol(argv[3]), atol(argv[4]));
+	if (argc >= 3 && !strcmp(argv[1], "walkreplay"))
+		return walk_replay(argv[2]);
 	if (argc >= 4 && !strcmp(argv[1], "macros"))
 		return sweep_macros(strtoull(argv[2], 0, 10), strtoull(argv[3], 0, 10));
 	if (argc >= 3 && !strcmp(argv[1], "sweep"))
@@ -136,7 +212,7 @@ int main(int argc, char **argv)
 			rotenc_t r; memset(&r, 0, sizeof r);
 			r.last_state = a; r.count = b; r.internal_count = c;
 			rotenc_decode(&r, (uint8_t)d);
-			printf("%u %u %u %u\n", r.last_state, (unsigned)r.count, r.internal_count, rotenc_count14(&r));
+			printf("%u %u %u %u %u\n", r.last_state, (unsigned)r.count, r.internal_count, rotenc_count14(&r), rotenc_count(&r));
 		}
 		else if (!strcmp(op, "cyclecmp32")) printf("%d\n", cyclecmp32((uint32_t)a, (uint32_t)b));
 		else puts("bad-op");
